@@ -6,8 +6,6 @@
 //! C08 — user lexicon: history replica vs pristine replicas (rebuilt with only the current rows;
 //!       system lexicon extended by the rows); malformed lexicons are rejected.
 
-use std::collections::BTreeMap;
-
 use vibrato::Dictionary;
 
 use crate::core::{catch, panic_violation, Check, Ctx, Scenario, ScenarioInfo, Tier, Violation};
